@@ -253,8 +253,10 @@ def render(seq) -> Rendered:
             contribs.append(Contribution(name, ch.basis, cls, slot.ti, slot.tf, amp, det, float(p.phase),
                                          list(weights)))
             if cls == "G" and not seen_first:
-                # a constant zero-amplitude, constant-detuning "pulse" is a detuned delay, not a pulse
-                detuned_delay = bool(np.all(amp == 0.0) and np.all(det == det[0]))
+                # Pulse.ConstantPulse(dur, 0, delta, phi) is a "detuned delay" (what delays / EOM buffers are made
+                # of), not a pulse; any other zero-amplitude Pulse object the user adds is a pulse
+                detuned_delay = bool(type(p.amplitude).__name__ == "ConstantWaveform" and amp[0] == 0.0
+                                     and type(p.detuning).__name__ == "ConstantWaveform")
                 if not detuned_delay:
                     seen_first = True
                     if first_global is None or slot.ti < first_global[0]:
